@@ -36,13 +36,14 @@ type val struct {
 	lin  *lin
 	slot int
 	desc string
-	b    bool         // for vBool when known
-	bk   bool         // bool known
-	lit  *ast.FuncLit // a local function literal (inlined when called)
-	cmp  string       // for vBool with lin: the comparison `lin cmp 0` it stands for
-	cnam string       // … and, when one side is a named constant of an enumeration type, that name
-	nn   bool         // known not to be nil (a package-level singleton that is never reassigned)
-	fnv  *types.Func  // a package-level function used as a value (called through a parameter of a helper)
+	b    bool              // for vBool when known
+	bk   bool              // bool known
+	lit  *ast.FuncLit      // a local function literal (inlined when called)
+	cmp  string            // for vBool with lin: the comparison `lin cmp 0` it stands for
+	cnam string            // … and, when one side is a named constant of an enumeration type, that name
+	nn   bool              // known not to be nil (a package-level singleton that is never reassigned)
+	fnv  *types.Func       // a package-level function used as a value (called through a parameter of a helper)
+	elem *ast.CompositeLit // an element of a read-only table literal of structs (T[k], &T[k])
 }
 
 func unk(desc string) val { return val{kind: vUnknown, desc: desc} }
@@ -1394,6 +1395,13 @@ func (se *symExec) eval(e ast.Expr, st *sstate) []ev {
 		}
 		var out []ev
 		for _, r := range se.eval(x.X, st) {
+			if r.v.elem != nil {
+				// a field of an element of a table literal: what the literal says
+				if fe := fieldOfElem(se.info, r.v.elem, x.Sel.Name); fe != nil {
+					out = append(out, se.eval(fe, r.st)...)
+					continue
+				}
+			}
 			d := se.canon(x)
 			if r.v.kind == vSlot {
 				d = fmt.Sprintf("slot%d.%s", r.v.slot, x.Sel.Name)
@@ -1446,6 +1454,16 @@ func (se *symExec) eval(e ast.Expr, st *sstate) []ev {
 				out = append(out, ev{r.st, unk("stack[?]")})
 			}
 			return out
+		}
+		if at := arrayTableOf(se.c, se.info, x.X); at != nil && at.info == se.info {
+			// an element of a read-only table literal, selected by a constant: the element's literal
+			if ks := se.eval(x.Index, st); len(ks) == 1 && ks[0].v.kind == vInt && ks[0].v.lin.isConst() {
+				if cl := at.elems[ks[0].v.lin.c]; cl != nil {
+					v := unk(fmt.Sprintf("%s[%d]", at.v.Name(), ks[0].v.lin.c))
+					v.elem = cl
+					return one(ks[0].st, v)
+				}
+			}
 		}
 		var out []ev
 		for _, b := range se.eval(x.X, st) {
